@@ -5,18 +5,8 @@
    tables built once in Inst/ (deviation lists and digests). *)
 From Coq Require Import ZArith NArith List Bool Floats String Uint63.
 Import ListNotations.
-From Fit Require Export Model.Float Model.Profile Model.Scale Model.Sweep Run.RunCommon.
+From Fit Require Export Model.Float Model.Profile Model.Scale Model.Sweep Model.Routes Run.RunCommon.
 From Fit Require Import gen.ConvMode gen.ScaledAccessors Inst.Triples Inst.SweepTable.
-
-(* the mode of each route, as the code stands now *)
-Definition route_mode (r : route) : conv_mode :=
-  match r with
-  | RValue | RValidator => mode_discard_value
-  | RAny => mode_discard_any
-  | RSliceValue | RSliceAny | RSliceGeneric => mode_discard_slice
-  | RAccessor => mode_setter_template
-  | RCsv => mode_csv
-  end.
 
 Inductive c12_case :=
 | CSweep (r : route) (bt s o : N) (ha hd : option N) (devs : list (Z * Z))
